@@ -142,6 +142,7 @@ func verifyFunc(g *Gen, fi *funcInfo, ct *Contract, lit *ast.FuncLit, parentCt *
 	e := newExec(g, fi.pkg)
 	e.fi = fi
 	e.contract = ct
+	e.parentContract = parentCt
 	e.sf = g.specs[fi.pkg.PkgPath]
 	e.fnName = fi.pkg.Types.Name() + "." + ct.Key
 	e.wrap = ct.Arith == "wrap"
@@ -915,7 +916,7 @@ func mentionsEvents(x ast.Expr) bool {
 		if c, ok := n.(*ast.CallExpr); ok {
 			if id, ok := c.Fun.(*ast.Ident); ok {
 				switch id.Name {
-				case "called", "ncalls", "ret", "arg", "sent", "closed":
+				case "called", "ncalls", "ret", "arg", "sent", "closed", "sentval", "recvd", "recvval":
 					found = true
 				}
 			}
@@ -927,6 +928,12 @@ func mentionsEvents(x ast.Expr) bool {
 
 func (e *Exec) applyExtern(fn *types.Func, es *ExternSpec, f FuncV, args []Val, resT types.Type, c *ast.CallExpr) Val {
 	sig := fn.Type().(*types.Signature)
+	// a generic function: type the parameters with the signature instantiated at this call
+	if sig.TypeParams() != nil && sig.TypeParams().Len() > 0 && c != nil {
+		if isig, ok := e.typeOf(c.Fun).(*types.Signature); ok && isig.Params().Len() == sig.Params().Len() {
+			sig = isig
+		}
+	}
 	all := args
 	var allT []types.Type
 	if sig.Recv() != nil {
@@ -1054,3 +1061,105 @@ func shortFile(f string) string {
 
 var _ = token.NoPos
 
+
+// ---- channel invariants ------------------------------------------------------------
+
+// chanInv returns the invariant declared (in the function's contract, also for its closures) for the channel whose
+// expression text is name.
+func (e *Exec) chanInv(name string) *PredDef {
+	for _, ct := range []*Contract{e.contract, e.parentContract} {
+		if ct != nil && ct.ChanInvs != nil {
+			if p := ct.ChanInvs[name]; p != nil {
+				return p
+			}
+		}
+	}
+	return nil
+}
+
+// chanInvTerm evaluates the invariant for value v (of the channel's element type) in the current state.
+func (e *Exec) chanInvTerm(inv *PredDef, v Val, elemT types.Type, pos token.Pos) string {
+	env := e.loopEnv()
+	env.scopePos = pos
+	env = env.with(map[string]boundVar{inv.Params[0].Name: {v, elemT}})
+	env.scopePos = pos
+	return e.specBool(inv.Body, env)
+}
+
+// checkSendInv: obligation at a send on a channel that carries an invariant.
+func (e *Exec) checkSendInv(s *ast.SendStmt, v Val) {
+	if e.dry > 0 {
+		return
+	}
+	name := exprText(s.Chan)
+	inv := e.chanInv(name)
+	if inv == nil {
+		return
+	}
+	var et types.Type
+	if t := e.typeOf(s.Chan); t != nil {
+		if ch, ok := t.Underlying().(*types.Chan); ok {
+			et = ch.Elem()
+		}
+	}
+	e.sendSeq++
+	t := e.chanInvTerm(inv, v, et, s.Pos())
+	e.oblige(fmt.Sprintf("chan-inv %s@send#%d", name, e.sendSeq), "assert", "channel invariant holds for the value sent: "+inv.Body.Text, t)
+}
+
+// recvWithInv: a receive from a channel with an invariant. The goroutines that send on it (go statements with function
+// literals in this function) may have run: the captured variables they assign are forgotten, then the invariant is
+// assumed for the received value (in the receiver's state: the sender does not touch those variables after the send;
+// A-SEQ / data-race freedom).
+func (e *Exec) recvWithInv(x *ast.UnaryExpr, v Val, ok string) {
+	name := exprText(x.X)
+	inv := e.chanInv(name)
+	if inv == nil {
+		return
+	}
+	fr := e.frames[0]
+	if fr.body != nil {
+		info := e.fi.pkg.TypesInfo
+		ast.Inspect(fr.body, func(n ast.Node) bool {
+			g, isGo := n.(*ast.GoStmt)
+			if !isGo {
+				return true
+			}
+			lit, isLit := g.Call.Fun.(*ast.FuncLit)
+			if !isLit {
+				return true
+			}
+			sends := false
+			ast.Inspect(lit.Body, func(m ast.Node) bool {
+				if ss, ok := m.(*ast.SendStmt); ok && exprText(ss.Chan) == name {
+					sends = true
+				}
+				return true
+			})
+			if !sends {
+				return true
+			}
+			if k, ok := e.litOrd[lit]; !ok || e.topContractClosures()[k] == nil {
+				e.errs = append(e.errs, fmt.Sprintf("chaninv %s: the goroutine literal that sends on it has no 'closure k' contract (its sends are unchecked)", name))
+			}
+			for _, obj := range assignedFreeVars(lit, info) {
+				if _, ok := e.st.vars[obj]; ok {
+					e.st.vars[obj] = e.havocVal(obj.Name(), obj.Type())
+				}
+			}
+			return true
+		})
+	}
+	var et types.Type
+	if t := e.typeOf(x.X); t != nil {
+		if ch, ok := t.Underlying().(*types.Chan); ok {
+			et = ch.Elem()
+		}
+	}
+	t := e.chanInvTerm(inv, v, et, x.Pos())
+	if ok != "" {
+		t = mkOr(mkNot(ok), t)
+	}
+	e.assume(t)
+	e.trusted["channel invariant of "+name+" assumed at receive (proved at every send of the function and its contracted closures; A-SEQ)"] = true
+}
